@@ -47,7 +47,7 @@ def check_C20(tier, seed, replay=None):
                 print("VIOLATION property=C20 replay=%s" % replay)
             return 0 if ok else 1
         nscen = 58
-        rounds = 4 if tier == "quick" else 24
+        rounds = 4 if tier == "quick" else 120
         total = nscen * rounds
         outdir = os.path.join(b.scratch, "out")
         lines, crashes = fanout(exe, seed, total, tier, outdir, 100 if tier == "quick" else 1500)
@@ -154,7 +154,7 @@ def check_C18(tier, seed, replay=None):
             if not ok:
                 print("VIOLATION property=C18 replay=%s" % replay)
             return 0 if ok else 1
-        total = 40 if tier == "quick" else 640
+        total = 40 if tier == "quick" else 800
         outdir = os.path.join(b.scratch, "out")
         lines, crashes = fanout(exe, seed, total, tier, outdir, 120 if tier == "quick" else 1500)
         for c in crashes:
@@ -289,7 +289,7 @@ def check_C14(tier, seed, replay=None):
             if not ok:
                 print("VIOLATION property=C14 replay=%s" % replay)
             return 0 if ok else 1
-        total = 1600 if tier == "quick" else 40000
+        total = 1600 if tier == "quick" else 90000
         outdir = os.path.join(b.scratch, "out")
         lines, crashes = fanout(exes, seed, total, tier, outdir, 60 if tier == "quick" else 1300)
         for c in crashes:
@@ -403,16 +403,16 @@ def check_hist(prop, tier, seed, replay=None):
             return 0 if ok else 1
         nops = 53
         if prop == "C10":
-            total = nops * (48 if tier == "quick" else 640)
+            total = nops * (48 if tier == "quick" else 2000)
         else:
-            total = nops * (32 if tier == "quick" else 480)
+            total = nops * (32 if tier == "quick" else 1500)
         outdir = os.path.join(b.scratch, "out")
         budget = 100 if tier == "quick" else 1400
         lines, crashes = fanout(exes, seed, total, tier, outdir, budget)
         ill_lines = []
         if prop == "C11":
             outdir2 = os.path.join(b.scratch, "out_ill")
-            nill = 21 * 8 * (6 if tier == "quick" else 80)
+            nill = 21 * 8 * (6 if tier == "quick" else 240)
             ill_lines, cr2 = fanout(exes[:1], seed, nill, tier, outdir2, budget, extra=["illdim"])
             crashes += cr2
         for cc in crashes:
@@ -545,9 +545,11 @@ CFG_VARIANTS = {
 }
 
 
-def build_cfg(b, names=None):
+def build_cfg(b, names=None, const_triples=()):
     names = names or sorted(CFG_VARIANTS)
     vs = [Variant("ref", flavour="plain", knobs=False)] + [Variant(n, flavour="plain", knobs=True, **CFG_VARIANTS[n]) for n in names]
+    # constant-size builds for the cross-validation: no block/header cache, so that allocation request sequences are a pure function of the code path
+    vs += [Variant("k%d" % i, flavour="plain", knobs=False, mmc=0, mzdcache=0, l1=t[0], l2=t[1], l3=t[2]) for i, t in enumerate(const_triples)]
     b.build_variants(vs)
     return b.build_engine("cfg", ["gen.c", "eng/engutil.c", "eng/cfg.c"], vs, "plain", core=("heap.c", "die.c", "fs.c", "sched.c")), vs
 
@@ -575,12 +577,45 @@ def check_C12(tier, seed, replay=None):
             if not ok:
                 print("VIOLATION property=%s replay=%s" % (r.get("prop", "C12"), replay))
             return 0 if ok else 1
-        total = 12 * (150 if tier == "quick" else 1700)
+        total = 12 * (150 if tier == "quick" else 3000)
         outdir = os.path.join(b.scratch, "out")
         lines, crashes = fanout(exe, seed, total, tier, outdir, 90 if tier == "quick" else 1300)
+        # cross-validation of the knob mechanism against builds with literal cache sizes (DESIGN 2.2)
+        xlines = []
+        ntrip = 3 if tier == "quick" else 12
+        import random as _r
+        rx = _r.Random(seed ^ 0x6b6e6f62)
+        trips = []
+        for _ in range(ntrip):
+            l1 = rx.choice([4096, 8192, 16384, 32768, 65536]); l2 = max(l1, rx.choice([32768, 65536, 262144, 1310720, 2097152])); l3 = max(l2, rx.choice([65536, 131072, 262144, 1048576, 4194304]))
+            trips.append((l1, l2, l3))
+        bx = Builder()
+        try:
+            exex, vsx = build_cfg(bx, ["s_t_q"], trips)
+            xlines, crx = fanout(exex, seed, 12 * (4 if tier == "quick" else 17), tier, os.path.join(bx.scratch, "out"), 60 if tier == "quick" else 600,
+                                 extra=["xval", ",".join("%d:%d:%d" % t for t in trips)])
+            crashes += crx
+        finally:
+            bx.cleanup()
         for cc in crashes:
             rep.harness("cfg worker %d exited with %d: %s" % (cc["worker"], cc["rc"], cc["tail"][-3:]))
         hashes, vl, classes, per_scen, T = [], [], {}, {}, {}
+        xruns = 0
+        for w, l in xlines:
+            tag, d = kv(l)
+            if tag == "R":
+                xruns += 1
+            elif tag == "T":
+                for kk, v in d.items():
+                    if kk.startswith("p.xval"):
+                        T[kk] = T.get(kk, 0) + int(v)
+            elif tag == "V":
+                if d.get("class", "").startswith("HARNESS"):
+                    rep.harness("knob mechanism disagrees with a constant build: %s" % l[:300])
+                else:
+                    rep.harness("cross-validation run reported %s (investigate with the constant build): %s" % (d.get("class"), l[:300]))
+        if xlines and not T.get("p.xval_cache_sizes_changed_the_allocation_pattern", 0):
+            rep.harness("cross-validation: the cache-size knobs never changed the library's allocation pattern - the knob mechanism may be inert")
         for w, l in lines:
             tag, d = kv(l)
             if tag == "R":
@@ -589,7 +624,8 @@ def check_C12(tier, seed, replay=None):
                 per_scen[d["scen"]] = per_scen.get(d["scen"], 0) + 1
             elif tag == "T":
                 for kk, v in d.items():
-                    T[kk] = T.get(kk, 0) + int(v)
+                    if not kk.startswith("p.xval"):
+                        T[kk] = T.get(kk, 0) + int(v)
             elif tag == "V":
                 vl.append(d)
         if not hashes:
@@ -620,6 +656,9 @@ def check_C12(tier, seed, replay=None):
             fault_kinds_fired={"cache sizes other than the shipped ones": T.get("configs", 0) - len(hashes), "no-SSE2 build": probes.get("no_sse2_variant", 0),
                                "OpenMP build on the simulated runtime (seeded team size 1..16)": probes.get("openmp_variant_on_simulated_runtime", 0)},
             reach_probes=probes, probes_stuck_at_zero=stuck,
+            knob_cross_validation=dict(constant_builds=["%d:%d:%d" % t for t in trips], runs=xruns, pairs_compared=probes.get("xval_knob_vs_constant_pairs", 0),
+                                       pairs_where_cache_sizes_changed_the_allocation_pattern=probes.get("xval_cache_sizes_changed_the_allocation_pattern", 0),
+                                       what="knob build at (L1,L2,L3) vs a build with the same sizes as literal constants: outputs AND allocation request count/bytes must be identical"),
             runs_per_hour=int(len(hashes) / max(wall, 1e-3) * 3600), seeds_per_hour=int(len(hashes) / max(wall, 1e-3) * 3600),
             simulated_time="not applicable: no clock in this property",
             run_hash_digest=digest(hashes), variants=[v.describe() for v in vs], source_sha256=b.sha,
@@ -662,7 +701,7 @@ def check_C15(tier, seed, replay=None):
             if not ok:
                 print("VIOLATION property=%s replay=%s" % (r.get("prop", "C15"), replay))
             return 0 if ok else 1
-        total = 1600 if tier == "quick" else 48000
+        total = 1600 if tier == "quick" else 240000
         outdir = os.path.join(b.scratch, "out")
         lines, crashes = fanout(exe, seed, total, tier, outdir, 100 if tier == "quick" else 1400)
         ctl_lines, cr2 = fanout(exe, seed, 32, tier, os.path.join(b.scratch, "out_ctl"), 100, extra=["control"])
